@@ -47,6 +47,7 @@ type Contract struct {
 	Allocates   bool
 	ModifiesAll bool
 	MayPanic    bool
+	Implements  string
 	Callers     []*Clause
 	Requires    []*Clause
 	Ensures     []*Clause
@@ -84,6 +85,7 @@ type PkgSpec struct {
 	GlobalInv []*Clause
 	Axioms    []*Clause
 	TypeInvs  map[string]string // type name -> pred name
+	DynCalls  map[string]string // signature string -> "pure"
 	Hash      string
 }
 
@@ -164,6 +166,18 @@ func ParseContractFile(path, pkgPath string) (*PkgSpec, error) {
 				curPred = p
 				cur = nil
 				continue
+			case "dyncall":
+				rest := strings.TrimSpace(strings.TrimPrefix(text, "dyncall"))
+				i := strings.LastIndex(rest, " ")
+				if i < 0 {
+					return nil, fmt.Errorf("%s:%d: dyncall <signature> pure", path, ln+1)
+				}
+				if ps.DynCalls == nil {
+					ps.DynCalls = map[string]string{}
+				}
+				ps.DynCalls[strings.TrimSpace(rest[:i])] = strings.TrimSpace(rest[i+1:])
+				cur = nil
+				continue
 			case "typeinv":
 				f := strings.Fields(text)
 				if len(f) != 3 {
@@ -200,12 +214,18 @@ func ParseContractFile(path, pkgPath string) (*PkgSpec, error) {
 			// flags after the key
 			fields := strings.Fields(rest)
 			var keyParts []string
-			for _, f := range fields {
+			for fi := 0; fi < len(fields); fi++ {
+				f := fields[fi]
 				switch f {
 				case "pure":
 					cur.Pure = true
 				case "trusted":
 					cur.Trusted = true
+				case "implements":
+					if fi+1 < len(fields) {
+						cur.Implements = fields[fi+1]
+						fi++
+					}
 				default:
 					keyParts = append(keyParts, f)
 				}
@@ -309,6 +329,36 @@ func ParseContractFile(path, pkgPath string) (*PkgSpec, error) {
 				cur.Ensures = append(cur.Ensures, c)
 			}
 			curClause = c
+		}
+	}
+	// "implements T": inherit the clauses of the type-level contract T
+	for _, con := range ps.Contracts {
+		if con.Implements == "" {
+			continue
+		}
+		var tc *Contract
+		for _, c := range ps.Contracts {
+			if c.Kind == "type" && c.Key == con.Implements {
+				tc = c
+			}
+		}
+		if tc == nil {
+			return nil, fmt.Errorf("%s:%d: %s implements unknown type contract %s", path, con.Line, con.Key, con.Implements)
+		}
+		cp := func(cs []*Clause) []*Clause {
+			var out []*Clause
+			for _, c := range cs {
+				d := *c
+				d.Label = tc.Key + "." + c.Label
+				out = append(out, &d)
+			}
+			return out
+		}
+		con.Requires = append(cp(tc.Requires), con.Requires...)
+		con.Ensures = append(cp(tc.Ensures), con.Ensures...)
+		con.Modifies = append(cp(tc.Modifies), con.Modifies...)
+		if len(con.Tags) == 0 {
+			con.Tags = tc.Tags
 		}
 	}
 	return ps, nil
@@ -530,6 +580,7 @@ func __forall(f any) bool { panic("spec") }
 func __exists(f any) bool { panic("spec") }
 func __imp(a, b bool) bool { panic("spec") }
 func elems[T any](s []T) []T { panic("spec") }
+func allelems[T any](s []T) []T { panic("spec") }
 func arr[T any](s []T) int { panic("spec") }
 func off[T any](s []T) int { panic("spec") }
 func ref(p any) int { panic("spec") }
@@ -547,6 +598,7 @@ func bits(f float64) uint64 { panic("spec") }
 func isnan(f float64) bool { panic("spec") }
 func feq(a, b float64) bool { panic("spec") }
 func fsame(a, b float64) bool { panic("spec") }
+func eqv[T any](a, b T) bool { panic("spec") }
 func fst2[A, B any](a A, b B) A { panic("spec") }
 func snd2[A, B any](a A, b B) B { panic("spec") }
 `
@@ -683,6 +735,10 @@ func (e *Engine) GenerateOverlay(ps *PkgSpec, pkg *types.Package, fnByKey map[st
 	for _, p := range ps.Preds {
 		if p.Ghost {
 			fmt.Fprintf(&body, "func %s(%s) %s { panic(\"ghost\") }\n", p.Name, p.Params, p.Ret)
+			if ps := splitTop(p.Params, ","); len(ps) == 2 {
+				// whole-row location of a two-argument ghost function, for modifies clauses
+				fmt.Fprintf(&body, "func %s_row(%s) int { panic(\"ghost\") }\n", p.Name, strings.TrimSpace(ps[0]))
+			}
 			continue
 		}
 		func() {
@@ -707,6 +763,10 @@ func (e *Engine) GenerateOverlay(ps *PkgSpec, pkg *types.Package, fnByKey map[st
 				continue
 			}
 			us = e.sigForFunc(fn, q)
+			if con.Implements != "" {
+				us.names = append([]string{"self"}, us.names...)
+				us.params = append([]string{"self " + con.Implements}, us.params...)
+			}
 		case "type":
 			var err error
 			us, err = e.sigForType(con, pkg, q)
